@@ -85,6 +85,18 @@ func And(a, b bool) bool          { return a && b }
 func Or(a, b bool) bool           { return a || b }
 func Not(a bool) bool             { return !a }
 func Implies(a, b bool) bool      { return !a || b }
+func IteByte(c bool, a, b byte) byte {
+	if c {
+		return a
+	}
+	return b
+}
+func IteInt(c bool, a, b int) int {
+	if c {
+		return a
+	}
+	return b
+}
 func SameString(a, b string) bool { return a == b }
 func SameBytes(a, b []byte) bool {
 	if len(a) != len(b) {
